@@ -38,10 +38,12 @@ class World:
     def mag(self, b, variant):
         """concrete magnitude for concrete bin b (-1 = below minimum); top bin is open-ended."""
         e = self.edges
+        # (a magnitude of 1e10 is a legal member of the open-ended top bin; one a millionth below the lowest edge is below it, far
+        #  outside any round-off allowance - whatever else the catalog holds)
         if b < 0:
-            return e[0] - [0.3, 0.05, 1.7][variant % 3]
+            return e[0] - [0.3, 0.05, 1.7, 1e-6][variant % 4]
         if b == len(e) - 1:
-            return e[b] + [0.0, 0.03, 0.9, 2.5][variant % 4]
+            return e[b] + [0.0, 0.03, 0.9, 2.5][variant % 4] if variant % 5 else 1e10
         w = e[b + 1] - e[b]
         return e[b] + [0.0, 0.5, 0.3, 0.8][variant % 4] * w
 
